@@ -40,11 +40,27 @@ var checkGuardedDeleteQ = pattern.MustParse(`
 		nil)`)
 
 func run(pass *analysis.Pass) (any, error) {
+	// An if statement that is the else branch of another one cannot be
+	// replaced by a bare call: 'else delete(m, k)' is not valid Go. Keep the
+	// braces in that case.
+	elseBranches := map[ast.Node]bool{}
+	for _, f := range pass.Files {
+		ast.Inspect(f, func(n ast.Node) bool {
+			if ifstmt, ok := n.(*ast.IfStmt); ok && ifstmt.Else != nil {
+				elseBranches[ifstmt.Else] = true
+			}
+			return true
+		})
+	}
 	for node, m := range code.Matches(pass, checkGuardedDeleteQ) {
+		var replacement ast.Node = m.State["call"].(ast.Node)
+		if elseBranches[node] {
+			replacement = &ast.BlockStmt{List: []ast.Stmt{&ast.ExprStmt{X: m.State["call"].(ast.Expr)}}}
+		}
 		report.Report(pass, node, "unnecessary guard around call to delete",
 			report.ShortRange(),
 			report.FilterGenerated(),
-			report.Fixes(edit.Fix("Remove guard", edit.ReplaceWithNode(pass.Fset, node, m.State["call"].(ast.Node)))))
+			report.Fixes(edit.Fix("Remove guard", edit.ReplaceWithNode(pass.Fset, node, replacement))))
 	}
 	return nil, nil
 }
